@@ -26,7 +26,7 @@ import mapgen
 import pipegen
 
 PID = "C10"
-PROPS = ["PfModel.Props.C10", "PfModel.Props.C10Axis", "PfModel.Props.C10Total", "PfModel.Props.C10Map", "PfModel.Props.C10Ops", "PfModel.Props.C10Ren", "PfModel.Props.C10AxisPrior", "PfModel.Props.C10NestMap", "PfModel.Props.C10NestMapRun", "PfModel.Props.C10NestWrap", "PfModel.Props.C10Join", "PfModel.Props.C10RenWF"]
+PROPS = ["PfModel.Props.C10", "PfModel.Props.C10Axis", "PfModel.Props.C10Total", "PfModel.Props.C10Map", "PfModel.Props.C10Ops", "PfModel.Props.C10Ren", "PfModel.Props.C10AxisPrior", "PfModel.Props.C10NestMap", "PfModel.Props.C10NestMapRun", "PfModel.Props.C10NestWrap", "PfModel.Props.C10Join", "PfModel.Props.C10RenWF", "PfModel.Props.C10RenKeep"]
 DRIVER = "C10"
 RULE = ("an environment with a pipegen DAG (1-5 term-building functions: tuple outputs, shared parameters, defaults, bound values, renames) or a "
         "well-formed mapgen MapSpec pipeline (1-3 functions), optionally a second pipeline to join; a history of 1-3 rewrites drawn by weight "
